@@ -138,5 +138,5 @@ Definition run_c20_multi (w : world) (acts : list tact) (steps : list (nat * tac
      route_distance (wdist w) t; total_distance (wdist w) t';
      route_cost (wdist w) v t; cost_fitness (wdist w) v t';
      (if no_waitb t then 1 else 0); (if shadow_nowait w t st then 1 else 0);
-     multi_leg (wdur w) (wdist w) t st; cost_estimate_route v t + multi_cost w t st ],
+     multi_leg (wdur w) (wdist w) t st; cost_estimate_route v t + multi_cost_sum (wdur w) (wdist w) v t st ],
    sched_out t').
